@@ -1,0 +1,79 @@
+//go:build verif
+
+package contextscope
+
+// Machine-checked contracts for /verif (gowp). Comment-only file: it adds no code.
+
+// The error list and the closed state of the done channel are protected by errorsMU.
+//@ type ContextScope
+//@   field errors guarded_by errorsMU
+//@   field done immutable
+//@   chan done guarded_by errorsMU
+//@ type Isolated
+//@   field errors guarded_by errorsMU
+//@   field done immutable
+//@   chan done guarded_by errorsMU
+//@   field parent immutable
+
+//@ func New [C11 C12]
+//@   ensures typeis(result0, "*ContextScope") && fresh(ref(as(result0, "*ContextScope"))) && as(result0, "*ContextScope").done != nil
+
+// every non-nil error is retained, in order; stop follows when something was appended
+//@ func (*ContextScope).AppendError [C12]
+//@   requires s.done != nil
+//@   loop 1 invariant -1 <= $i && 0 <= i && held(s.errorsMU)
+//@   loop 1 step $i == prev($i) + 1
+//@   loop 1 step errs[$i] != nil ==> i == prev(i) + 1 && len(s.errors) == prev(len(s.errors)) + 1 && s.errors[len(s.errors) - 1] == errs[$i]
+//@   loop 1 step errs[$i] == nil ==> i == prev(i) && len(s.errors) == prev(len(s.errors))
+//@   loop 1 step forall(k, 0 <= k && k < prev(len(s.errors)) ==> s.errors[k] == prev(s.errors[k]))
+//@   trace Stop as STOP
+//@ func (*ContextScope).Stop [C12]
+//@   requires s.done != nil
+//@ func (*ContextScope).Kill [C12]
+//@   requires s.done != nil
+// a non-blocking probe: "not done" is a stable fact only while errorsMU is held
+//@ func (*ContextScope).IsDone [C12]
+//@   modifies $none
+//@   ensures !result && locked(s.errorsMU) ==> !closed(s.done)
+//@ func (*ContextScope).Err [C12]
+//@ func (*ContextScope).Errors [C12]
+
+//@ func (*Isolated).AppendError [C12]
+//@   requires scp.done != nil
+//@   loop 1 invariant -1 <= $i && 0 <= i && held(scp.errorsMU)
+//@   loop 1 step $i == prev($i) + 1
+//@   loop 1 step errs[$i] != nil ==> i == prev(i) + 1 && len(scp.errors) == prev(len(scp.errors)) + 1 && scp.errors[len(scp.errors) - 1] == errs[$i]
+//@   loop 1 step errs[$i] == nil ==> i == prev(i) && len(scp.errors) == prev(len(scp.errors))
+//@   loop 1 step forall(k, 0 <= k && k < prev(len(scp.errors)) ==> scp.errors[k] == prev(scp.errors[k]))
+//@ func (*Isolated).Stop [C12]
+//@   requires scp.done != nil
+//@ func (*Isolated).Kill [C12]
+//@   requires scp.done != nil
+//@ func (*Isolated).IsDone [C12]
+//@   modifies $none
+//@   ensures !result && locked(scp.errorsMU) ==> !closed(scp.done)
+//@ func (*Isolated).Err [C12]
+//@ func (*Isolated).Errors [C12]
+
+// an isolated context is a distinct object; its watcher kills it when the parent ended with
+// errors and stops it when the parent just stopped
+//@ func NewIsolated [C11 C12]
+//@   requires parent != nil
+//@   ensures typeis(result0, "*Isolated") && fresh(ref(as(result0, "*Isolated"))) && as(result0, "*Isolated").parent == parent && as(result0, "*Isolated").done != nil
+//@ func NewIsolated$1 [C11]
+//@   layers contract trace
+//@   requires isolated.done != nil && parent != nil
+//@   trace ContextScope.Errors as ERRS bind errs
+//@   trace (*Isolated).Kill as KILL
+//@   trace (*Isolated).Stop as STOP
+//@   trace_ensures true : ^(ERRS (KILL|STOP) )?$
+//@   trace_ensures len(errs) != 0 : ^(ERRS KILL )?$
+//@   trace_ensures len(errs) == 0 : ^(ERRS STOP )?$
+
+// read-only accessors of a context scope (both implementations above do not write the heap)
+//@ iface github.com/goatcms/goatcore/app.ContextScope.Errors(self) (errs)
+//@   modifies $none
+//@ iface github.com/goatcms/goatcore/app.ContextScope.Done(self) (ch)
+//@   modifies $none
+//@ iface github.com/goatcms/goatcore/app.ContextScope.IsDone(self) (done)
+//@   modifies $none
